@@ -66,7 +66,7 @@ Definition mk_iface (ovf : bool) (o : oracles) : iface :=
 Inductive sval := SV (v : value) | SVar (name : text) | SBad.
 
 Inductive hostop :=
-| HNew | HCont | HContMax | HContAsync (sched : list N) | HContSliced (sched : list N) | HFinish | HChoose (i : Z)
+| HNew | HCont | HContMax | HContAsync (sched : list N) | HContSliced (sched : list N) | HFinish | HChoose (i : Z) | HChooseEnd (k : nat)
 | HPath (p : text) (reset : bool) (args : option (list sval))
 | HSwitch (f : text) | HSwitchDefault | HRemoveFlow (f : text)
 | HObserve (id var : text) | HUnobserve (id : text) (var : option text)
@@ -232,6 +232,12 @@ Definition run_op_world (op : hostop) (seed : Z) (w : world) : text * world * bo
              | (OPanic _, w') => (T "panic", w', true)
              end
          end) (S (N.to_nat (w_fuel w))) (set_pause_schedule sched w)
+  | HChooseEnd k =>
+      match get_current_choices w with
+      | (OOk cs, w1) => fin (choose_choice_index I sw (length cs + k) w1) (fun _ => T "ok")
+      | (OErr e _, w1) => (show_err e, w1, false)
+      | (OPanic _, w1) => (T "panic", w1, true)
+      end
   | HChoose i =>
       if (i <? 0)%Z then (T "err(BadArgument)", w, false)
       else unitop (choose_choice_index I sw (Z.to_nat i))
